@@ -31,6 +31,10 @@ BRIDGES = {
     "mouette/attributes/glob.py::mean_cell_volume": ["mean_cell_volume_all", "mean_cell_volume_clamped"],
     "mouette/attributes/glob.py::mean_edge_length": ["mean_edge_length_all", "mean_edge_length_clamped"],
     "mouette/attributes/attr_corners.py::corner_angles": ["corner_angles_bridge"],
+    # both branches translated (direct: three cotan writes per face at 3i..3i+2; cached angles: cot[c] = -tan(angles[c] + pi/2))
+    "mouette/attributes/attr_corners.py::cotangent": ["cotangent_bridge", "cotangent_from_angles", "cotangent_branches_agree"],
+    # whole body: header incl. default 2*pi, border loop, cached `angles` source, skip guard, corner loop
+    "mouette/attributes/attr_vertices.py::angle_defects": ["angle_defects_bridge", "angle_defects_header"],
     "mouette/attributes/interpolate.py::interpolate_vertices_to_faces": ["interpolate_vertices_to_faces_at", "interpolate_vertices_to_faces_bridge"],
     # all four weight modes are translated; 'sum' and 'uniform' are bridged to the model, 'area' / 'angle' are tied by the oracle only
     "mouette/attributes/interpolate.py::interpolate_faces_to_vertices": ["interpolate_faces_to_vertices_sum", "interpolate_faces_to_vertices_uniform"],
@@ -1476,7 +1480,6 @@ SOURCE_MAP.update({
     "mouette/geometry/geometry.py::distance_to_segment2D": _OOS + "2-D helper of the samplers",
     "mouette/geometry/geometry.py::project_to_plane": _OOS + "not reached from the attribute functions",
     # attributes
-    "mouette/attributes/attr_vertices.py::angle_defects": "modelled",    # default / border value / skip guard translated (defect_table), loop hand-modelled
     "mouette/attributes/attr_vertices.py::vertex_normals": "modelled",   # weighted sums of the model's face normals (harness), oracle for every weighting
     "mouette/attributes/attr_vertices.py::border_normals": _OOS + "border-curve normals are not in the statement's list of quantities",
     "mouette/attributes/attr_edges.py::cotan_weights": "modelled",       # opposite-corner expression translated (oppCorner_bridge), loop hand-modelled
@@ -1484,7 +1487,6 @@ SOURCE_MAP.update({
     "mouette/attributes/attr_faces.py::face_near_border": _OOS + "combinatorial flag, not a geometric quantity of the statement",
     "mouette/attributes/attr_faces.py::triangle_aspect_ratio": "oracle-only",
     "mouette/attributes/attr_faces.py::parallel_transport_curvature": _OOS + "needs a connection object (C18)",
-    "mouette/attributes/attr_corners.py::cotangent": "modelled",         # argument table translated (cotanArgs_bridge), loop hand-modelled
     "mouette/attributes/attr_cells.py::cell_faces_on_boundary": _OOS + "combinatorial flag, not a geometric quantity of the statement",
     "mouette/attributes/interpolate.py::scatter_faces_to_corners": "oracle-only",   # body translated (Generated.C07Src.scatter_faces_to_corners), not bridged
 })
